@@ -843,7 +843,16 @@ func init() {
 			}
 			for _, c := range b { // no needle character may occur in a variable part (no occurrence straddles one)
 				if !ex.cannotContain(x, string(c)) {
-					panic(pathAbort{"unsupported: strings.LastIndex on this symbolic shape"})
+					// an arbitrary string: absent (-1), or s = a ++ needle ++ r with no occurrence starting later
+					st := strTerm(args[0])
+					if !ex.decideBool(mkContains(st, mkStr(b))) {
+						return int64(-1)
+					}
+					a := ex.freshVar("lastindexhead", SStr, "string", false)
+					r := ex.freshVar("lastindextail", SStr, "string", false)
+					ex.assume(mkEq(st, mkConcat(a, mkStr(b), r)))
+					ex.assume(mkNot(mkContains(mkConcat(mkStr(b[1:]), r), mkStr(b))))
+					return lower(mkStrOp("str.len", SInt, a))
 				}
 			}
 		}
@@ -893,12 +902,44 @@ func init() {
 		}
 		before, _, found, ok := firstIn(ex, strTerm(args[0]), b)
 		if !ok {
-			panic(pathAbort{"unsupported: strings.Index on this symbolic shape"})
+			// an arbitrary string: absent (-1) or the solver's str.indexof
+			st := strTerm(args[0])
+			if !ex.decideBool(mkContains(st, mkStr(b))) {
+				return int64(-1)
+			}
+			return lower(mkStrOp("str.indexof", SInt, st, mkStr(b), mkInt(0)))
 		}
 		if !found {
 			return int64(-1)
 		}
 		return lower(lenSum(before))
+	})
+	// strings.Fields on a symbolic string: all white space (no field), or one / two fields (fresh non-empty words
+	// without white space that occur in the string); longer splits are cut
+	reg("strings.Fields", func(ex *Exec, fn *ssa.Function, args []Value, site string) Value {
+		mk := func(parts []Value) Value { return Slice{Arr: parts, Len: len(parts), Cap: len(parts), O: ex.newObj(site)} }
+		if a, ok := args[0].(string); ok {
+			var parts []Value
+			for _, f := range strings.Fields(a) {
+				parts = append(parts, f)
+			}
+			return mk(parts)
+		}
+		st := strTerm(args[0])
+		ws := "(re.union (str.to_re \" \") (str.to_re \"\\u{9}\") (str.to_re \"\\u{a}\") (str.to_re \"\\u{d}\") (str.to_re \"\\u{b}\") (str.to_re \"\\u{c}\"))"
+		if ex.decideBool(mkStrOp("str.in_re", SBool, st, mkRaw("(re.* "+ws+")"))) {
+			return mk(nil)
+		}
+		word := "(re.+ (re.diff re.allchar " + ws + "))"
+		n := 1 + ex.chooseFree(2)
+		var parts []Value
+		for i := 0; i < n; i++ {
+			f := ex.freshVar("field", SStr, "string", false)
+			ex.assume(mkStrOp("str.in_re", SBool, f, mkRaw(word)))
+			ex.assume(mkContains(st, f))
+			parts = append(parts, lower(f))
+		}
+		return mk(parts)
 	})
 	reg("strings.Cut", func(ex *Exec, fn *ssa.Function, args []Value, site string) Value {
 		a, aok := args[0].(string)
